@@ -207,6 +207,18 @@ func (b *readBuffer) string(n int) string {
 	return string(str)
 }
 
+// wire widths of the length fields used by the packet bodies
+const (
+	maxUint8Len  = 0xff
+	maxUint16Len = 0xffff
+)
+
+// errFieldTooLong is returned by MarshalBinary when a field or an argument count
+// does not fit the length field that announces it on the wire
+func errFieldTooLong(packet, field string, n, max int) error {
+	return fmt.Errorf("%s: %s has length [%v] which exceeds the wire maximum of [%v]", packet, field, n, max)
+}
+
 // appendUint16 will append an int to a []byte as a uint16 but shifting bits
 func appendUint16(b []byte, i int) []byte {
 	return append(b, byte(i>>8), byte(i))
